@@ -544,3 +544,60 @@ def rule_number_token(ctx: Ctx, rule: str = "number-token") -> None:
         ctx.ok(rule, "grammar.floating_point_number", construct)
     else:
         ctx.cannot_decide(rule, "grammar.floating_point_number", construct, "parse action is %s" % norm(action)[:60])
+
+
+# ------------------------------------------------------------------ memoised parsing and parse actions that mutate (C09)
+def rule_parser_memoisation(ctx: Ctx, rule: str = "parser-memoisation") -> None:
+    """pyparsing's packrat cache hands the SAME result object to every alternative that re-parses a position.  The
+    parse actions of this grammar scale their payload in place; that is harmless as long as each action works on a
+    fresh object, i.e. as long as no operation of the syntax data classes hands one of its operands back.  The three
+    together - memoised results, in-place scaling, an operation that returns its operand - apply a factor twice
+    ('2(x) <= 3' read as 4x <= 3).  The rule reads all three from the source and fires only on the conjunction."""
+    prog = ctx.prog
+    construct = "grammar: no memoised parse result is scaled in place twice"
+    # A: memoisation switched on anywhere in the package
+    memo = []
+    for mi in prog.modules.values():
+        for node in ast.walk(mi.tree):
+            if isinstance(node, ast.Call) and isinstance(node.func, ast.Attribute) and node.func.attr in ("enable_packrat", "enablePackrat", "enable_left_recursion"):
+                memo.append("%s:%d" % (mi.relpath, node.lineno))
+    # C: parse actions (functions of the grammar module taking the token list) that store into an attribute /
+    #    item of something they did not create
+    gram = [fi for fi in prog.funcs.values() if fi.module.base == "grammar" and not isinstance(fi.node, ast.Lambda)]
+    mutators = []
+    for fi in gram:
+        created = set()
+        for node in ast.walk(fi.node):
+            if isinstance(node, ast.Assign) and len(node.targets) == 1 and isinstance(node.targets[0], ast.Name) and isinstance(node.value, (ast.Call, ast.Dict, ast.List)) :
+                f = node.value.func if isinstance(node.value, ast.Call) else None
+                nm = (f.id if isinstance(f, ast.Name) else f.attr if isinstance(f, ast.Attribute) else None) if f is not None else "display"
+                if nm == "display" or (nm and (nm in prog.classes or nm in ("copy", "deepcopy", "dict", "list"))):
+                    created.add(node.targets[0].id)
+        for node in ast.walk(fi.node):
+            tgt = None
+            if isinstance(node, ast.AugAssign):
+                tgt = node.target
+            elif isinstance(node, ast.Assign):
+                tgt = node.targets[0]
+            if isinstance(tgt, (ast.Attribute, ast.Subscript)):
+                root = tgt
+                while isinstance(root, (ast.Attribute, ast.Subscript)):
+                    root = root.value
+                if isinstance(root, ast.Name) and root.id not in created:
+                    mutators.append(fi.key)
+                    break
+    # B: an operation of the syntax data classes that returns one of its operands
+    aliasing = []
+    for fi in prog.funcs.values():
+        if isinstance(fi.node, ast.Lambda) or fi.module.base != "data" or fi.cls is None or fi.kind not in ("method",):
+            continue
+        params = set(fi.params)
+        rebound = {t.id for node in ast.walk(fi.node) if isinstance(node, (ast.Assign, ast.AugAssign, ast.AnnAssign)) for t in ([node.target] if not isinstance(node, ast.Assign) else node.targets) if isinstance(t, ast.Name)}
+        for node in ast.walk(fi.node):
+            if isinstance(node, ast.Return) and isinstance(node.value, ast.Name) and node.value.id in params and node.value.id not in rebound:
+                aliasing.append("%s returns its operand `%s` (line %d)" % (fi.key, node.value.id, node.lineno))
+    ctx.extra["parse_actions_scaling_in_place"] = len(mutators)
+    if memo and mutators and aliasing:
+        ctx.violation(rule, "grammar", construct, "memoisation is enabled (%s), %d parse actions scale their payload in place (e.g. %s) and %s: an alternative that re-parses a position receives the already scaled object and scales it again" % (memo[0], len(mutators), sorted(mutators)[0], aliasing[0]), where=memo[0])
+    else:
+        ctx.ok(rule, "grammar", construct + " (memoisation %s; %d in-place actions; %d operand-returning operations)" % ("on" if memo else "off", len(mutators), len(aliasing)), nontrivial=bool(mutators))
